@@ -107,6 +107,11 @@ inline Pools make_pools(bool thorough) {
     }
     p.strings.push_back(q(esc_cp(0x1F600, false) + esc_cp(0x1F601, true)));
     p.strings.push_back(q(T("\\u00e9\\u00E9")));
+    // escapes of single surrogates (legal by the RFC grammar): each denotes that one unit; only a high one directly followed by
+    // an escape from DC00 to DFFF is a pair
+    for (const char *ls : {"\\uD83D\\u0041", "\\uD83D\\uD83D\\uDE00", "\\uD800\\u0441x", "\\uD83Dx", "\\uDE00", "\\uDBFF\\uDBFF", "a\\uD83D\\u00e9\\uDE00"}) {
+        p.strings.push_back(q(T(ls)));
+    }
     // numerals
     for (const char *n : {"0", "-0", "1", "-1", "12", "1.5", "-0.5", "1e2", "1E+2", "1e-2", "0.1", "9223372036854775807",
                           "9223372036854775808", "18446744073709551615", "18446744073709551616", "-9223372036854775808",
